@@ -133,15 +133,16 @@ func addLeaf(t Tree, r *Route, s *Segment, h Handler) (Leaf, error) {
 
 	if leaf.getSegment().Optional {
 		parent := leaf.getParent()
+		var shortForm Leaf
 		if parent.getParent() != nil {
-			_, err = addLeaf(parent.getParent(), r, parent.getSegment(), h)
+			shortForm, err = addLeaf(parent.getParent(), r, parent.getSegment(), h)
 			if err != nil {
 				return nil, errors.Wrap(err, "add optional leaf to grandparent")
 			}
 		} else {
 			// The optional segment is the only segment of the route (e.g. "/?name"), the
 			// root tree has no segment and the short form is the root path "/".
-			_, err = addLeaf(parent, r, &Segment{Pos: s.Pos, Slash: "/"}, h)
+			shortForm, err = addLeaf(parent, r, &Segment{Pos: s.Pos, Slash: "/"}, h)
 			if err != nil {
 				return nil, errors.Wrap(err, "add optional leaf to parent")
 			}
@@ -149,6 +150,7 @@ func addLeaf(t Tree, r *Route, s *Segment, h Handler) (Leaf, error) {
 			// The leaf above is added to the same tree, re-read the updated list.
 			leaves = t.getLeaves()
 		}
+		leaf.setShortForm(shortForm)
 	}
 
 	// Determine leaf position by the priority of match styles.
